@@ -1,7 +1,7 @@
 """C12 — cumulative products equal the sequential left/right fold for every length.
 
 Model: lean/Pose/Model/Scan.lean; theorems: lean/Proofs/Props/C12.lean (cumops_spec, cumopsLeft_spec,
-strides_lt, cumopsDim_spec, cumopsExec_eq, …).
+strides_lt, cumopsDim_spec, cumopsArr_eq, wrapper_spec, scanMem_spec, scanMem_frame, scanOut_*, …).
 
 Correspondence streams
   schedule : for every L the stride list the real `cumops_` uses (observed through the `ops` callback)
@@ -31,9 +31,16 @@ META = {
     "rule": "schedule: every L in the tier's range (exhaustive); mat2/lie: random (L, shape, dim, left, api, dtype) "
             "with L from {1..40} + powers of two +-1 + random up to the tier bound; a case is non-trivial when L >= 2 "
             "and distinct by (stream, L, dim, rank, left, api, dtype/type)",
-    "trusted": ["torch index_select/index_copy_/arange semantics (external kernel)"],
-    "assumptions": ["`ops` is associative on the values it is applied to (hypothesis of cumops_spec)"],
-    "partial": [],
+    "trusted": ["torch index_select/index_copy_/arange semantics (external kernel): a round reads whole slices of the OLD tensor "
+                "and writes whole slices, every fibre along `dim` alike — this is how the model's `step`/`stepMem` are defined and "
+                "it is tied to the code by the `mat2` and `mem` streams (whole-storage comparison), not derived"],
+    "assumptions": ["`ops` is associative on the values it is applied to (hypothesis of cumops_spec)",
+                    "`ops` acts item-wise along the scanned dimension: position j of ops(a, b) depends only on a[j], b[j] "
+                    "(true of `*`, `@` and the group products; a user `ops` that mixes positions, e.g. b.flip(0), is outside the theorems)"],
+    "partial": ["floating-point group products are not exactly associative: for the four group types the theorems apply to the exact "
+                "model (192-bit execution, real-number proofs); the float result is compared with the ordered fold within 64*eps*L per "
+                "block — a measured re-association error, not a proved bound. For exact monoids (integer matrices mod p, the free "
+                "monoid) the property's word 'exactly' is decided exactly."],
 }
 
 GROUPS = {"SO3": 4, "SE3": 7, "RxSO3": 5, "Sim3": 8}
@@ -236,6 +243,58 @@ def check_plain(ctx: Ctx, case) -> bool:
         ctx.fail(case, f"fold: {api}(plain tensor, left={left}) != sequential fold with {'@' if mat else '*'} (L={L}, dim={dim})")
         ok = False
     return ok
+
+
+def run_api_model(ctx: Ctx):
+    """every wrapper, `left` True / False / omitted, on int64 2x2 matrices mod p (plain tensors: `*` element-wise,
+    `@` matrix product) — implementation vs the model's `wrapper` (theorem wrapper_spec, runApi_eq)"""
+    rng = ctx.rng
+    lines, metas = [], []
+    p = 251
+    for api in ("cummul", "cumprod", "cummul_", "cumprod_"):
+        for left in ("none", True, False):
+            for L in (1, 2, 3, 4, 7, 8, 9, 33, rng.randint(10, 120)):
+                g = torch.Generator().manual_seed(17 * L + len(api))
+                x = torch.randint(0, p, (L, 2, 2), generator=g, dtype=torch.int64)
+                f = getattr(pp(), api)
+                case = {"kind": "api", "api": api, "left": left, "L": L}
+                try:
+                    # the wrappers have no modulus: reduce after every op by wrapping the tensor type? -> use small L-independent
+                    # exactness instead: entries < 251 and L <= 120 overflow int64 for `@`, so scan a mod-p subclass-free way:
+                    y = scan_mod(f, x, p, left)
+                except Exception as e:
+                    ctx.fail(case, f"raises: {api}(left={left}) raised {type(e).__name__}: {str(e)[:100]}")
+                    continue
+                lines.append(f"scan.api {api.rstrip('_')} {'none' if left == 'none' else int(left)} {p} " + " ".join(map(str, x.flatten().tolist())))
+                metas.append((case, y.flatten().tolist()))
+                ctx.note_case(("api", api, str(left), L), L >= 2)
+                ctx.count(f"api.{api}.left={left}")
+    reps = ctx.driver.run(lines)
+    for rep, (case, got) in zip(reps, metas):
+        st, toks = common.parse_reply(rep)
+        want = [int(t) for t in toks] if st == "ok" else None
+        if want != got:
+            ctx.disagree("api", case, f"wrapper {case['api']}(left={case['left']}) L={case['L']}: implementation != model wrapper")
+
+
+class ModP(torch.Tensor):
+    """int64 tensor whose `*` and `@` reduce mod p (so the wrappers' own lambdas `a*b`, `a@b` stay exact for any L)"""
+    P = 251
+
+    @classmethod
+    def __torch_function__(cls, func, types, args=(), kwargs=None):
+        out = super().__torch_function__(func, types, args, kwargs or {})
+        if func in (torch.Tensor.mul, torch.Tensor.matmul, torch.mul, torch.matmul, torch.Tensor.__mul__, torch.Tensor.__matmul__,
+                    torch.Tensor.__rmul__, torch.Tensor.__rmatmul__):
+            return torch.Tensor.remainder(out, cls.P)
+        return out
+
+
+def scan_mod(f, x, p, left):
+    ModP.P = p
+    xm = x.clone().as_subclass(ModP)
+    y = f(xm, 0) if left == "none" else f(xm, 0, left=left)
+    return torch.Tensor.remainder(y.as_subclass(torch.Tensor), p)
 
 
 def run_plain(ctx: Ctx, cases):
@@ -496,6 +555,38 @@ def run_mem(ctx: Ctx, cases):
                                       f"shape {case['shape']}, strides {case['strides']}, dim {case['dim']}, inplace={case['inplace']})")
 
 
+def run_overlap(ctx: Ctx):
+    """error branch: the in-place call on a view in which two elements share an address is refused by torch
+    (index_copy_), and by the model (`scanMemChecked = none`, theorem scanMemChecked_none_iff); the storage is unchanged"""
+    lines, metas = [], []
+    # torch detects internal overlap only for stride-0 (expanded) dimensions; other overlapping as_strided layouts are
+    # "unsupported" without a check (undefined behaviour, outside the property) — the model refuses them all
+    for shape, strides, dim in (([3, 5], [0, 1], 1), ([2, 3, 2], [0, 2, 1], 1), ([5, 3], [1, 0], 0), ([2, 2, 4], [4, 0, 1], 2)):
+        case = {"kind": "mem", "p": 7, "left": False, "inplace": True, "shape": shape, "strides": strides, "dim": dim, "base": 0,
+                "tail": 1, "negdim": False, "data_seed": 5}
+        buf, view = mem_setup(case)
+        before = buf.clone()
+        raised = None
+        try:
+            pp().cumops_(view, dim, lambda a, b: (a @ b) % 7)
+        except Exception as e:
+            raised = type(e).__name__
+        a, _b = mem_lines(case)
+        lines.append(a)
+        metas.append((case, raised, torch.equal(buf, before)))
+        ctx.note_case(("overlap", tuple(shape), tuple(strides)), True)
+        ctx.count("mem.overlap")
+    reps = ctx.driver.run(lines)
+    for rep, (case, raised, same) in zip(reps, metas):
+        st, toks = common.parse_reply(rep)
+        model_refuses = (st != "ok")
+        if model_refuses != (raised is not None):
+            ctx.disagree("mem", case, f"overlap: model {'refuses' if model_refuses else 'accepts'} the in-place call, implementation "
+                                      f"{'raised ' + raised if raised else 'returned'} (shape {case['shape']}, strides {case['strides']})")
+        if raised is not None and not same:
+            ctx.fail(case, "atomic: cumops_ on an overlapping view raised but had already changed the storage")
+
+
 # ----------------------------------------------------------------------------- grad-mode / call-order stream
 
 MODE_ORDERS = [("inference", "leaf", "plain", "nonleaf_"), ("no_grad", "nonleaf_", "inference", "leaf"),
@@ -659,6 +750,7 @@ def run(ctx: Ctx):
     for _ in range(ctx.pick(150, 1500)):
         mcases.append(gen_mem_case(rng, ctx.quick))
     run_mem(ctx, mcases)
+    run_overlap(ctx)
     # plain tensors through every wrapper (deterministic corpus: every api x order x a few lengths/shapes/dtypes)
     pcases = []
     for api in ("cumprod", "cumprod_", "cummul", "cummul_"):
@@ -672,6 +764,7 @@ def run(ctx: Ctx):
                        "L": rng.randint(1, 40), "shape_pre": small_shape(rng, 2), "shape_post": small_shape(rng, 1),
                        "dtype": rng.choice(["int64", "float64"]), "data_seed": rng.randrange(1 << 30)})
     run_plain(ctx, pcases)
+    run_api_model(ctx)
     # lie
     n = ctx.pick(160, 1200)
     corner = []
